@@ -108,6 +108,10 @@ check("C40", "exploration", "bounded-exhaustive differential exploration of inge
       "Every document sequence of <= 2 (quick) / <= 3 (thorough) over {short text, chunked text, text with embedding, binary} is ingested by plain puts + commit and by every bulk path: begin_batch/end_batch over the grid skip_sync x compression_level {0,1,3} x disable_auto_checkpoint x WAL pre-size {0,128 KiB} (quick: 6 grid points), commit_skip_indexes after each document or after all followed by finalize_indexes. The logical observation of each bulk path (frames and metadata, content hashes, timeline, search answers with and without sketch, vector answers) must equal the plain path's, live and after close+open.",
       "Differential oracle: no hand-written expected value.", "DESIGN.md §3 C40", "hist")
 
+check("C23", "exploration", "bounded-exhaustive history exploration, each history executed twice in different processes, two feature builds",
+      "Every op sequence of <= 2 (quick) / <= 3 (thorough) steps over {put t, put T, put b, put e, update, delete, commit, close+open} with explicit timestamps is executed twice in two different worker processes, in the default build and in the build without the lexical index. The logical observations (frames, contents, timeline, search and vector answers) must be identical; the files must be byte-identical, and where they are not the differing regions are named from the header/TOC region map and form the violation signature, so that only the recorded region sets (Tantivy segment bytes and what is derived from them; the tombstone stamp in the WAL) are known findings and a difference anywhere else is a violation.",
+      "Byte identity in the default build is decided only outside the regions produced by Tantivy (recorded finding).", "DESIGN.md §3 C23", "hist")
+
 NOT_APPLICABLE = {}
 
 def main():
